@@ -348,3 +348,336 @@ def constructor_loop_states(prog, cls, ekeys):
                                     and isinstance(x.slice, ast.Constant) and x.slice.value in ekeys:
                                 out.append((tgt.id, st, n))
     return init, out
+
+
+# ----------------------------------------------------------------------
+# calculators compute in internal units
+#
+# A calculator (rate matrix, relaxation tensor, propagator, hierarchy) mixes energies with times in
+# femtoseconds, Boltzmann factors with kB in internal units, and so on.  Every number it obtains through
+# a units-converting accessor is in the units that are current *for its caller*; it is an internal-units
+# number only under `with energy_units("int")`.  The classes of the package that get this right wrap
+# their work in such a block (RedfieldRelaxationTensor.__init__, FoersterRelaxationTensor.initialize,
+# AggregateBase.get_DensityMatrix ...).  The rule below demands the same of every calculator a property
+# names: each converting read is lexically inside an internal-units block, or lies in a private helper
+# all of whose call sites in the class hierarchy are protected in the same sense.
+_factories_cache = {}
+
+
+def property_factories(prog):
+    key = id(prog)
+    if key not in _factories_cache:
+        _factories_cache[key] = (prog, _property_factories(prog))
+    return _factories_cache[key][1]
+
+
+def _property_factories(prog):
+    """names (functions of utils.types and their partial aliases) that create a property whose getter
+    returns self.convert_2_current_u(...)"""
+    m = prog.module("quantarhei.utils.types")
+    names = set()
+    for fn in m.tree.body:
+        if isinstance(fn, ast.FunctionDef):
+            for inner in fn.body:
+                if isinstance(inner, ast.FunctionDef) and any(norm(d) == "property" for d in inner.decorator_list):
+                    if any(isinstance(r, ast.Return) and r.value is not None and any(
+                            isinstance(c, ast.Call) and norm(c.func).endswith("convert_2_current_u")
+                            for c in ast.walk(r.value)) for r in ast.walk(inner)):
+                        names.add(fn.name)
+    for st in m.tree.body:
+        if isinstance(st, ast.Assign) and isinstance(st.value, ast.Call) and call_name(st.value) == "partial" \
+                and st.value.args and isinstance(st.value.args[0], ast.Name) and st.value.args[0].id in names:
+            for t_ in st.targets:
+                if isinstance(t_, ast.Name):
+                    names.add(t_.id)
+    return names
+
+
+def converted_attributes(prog, cls):
+    """class attributes of cls (with bases) that are units-converting properties"""
+    fac = property_factories(prog)
+    out = set()
+    for b in prog.mro(cls):
+        if b is None:
+            continue
+        for nme, val in b.attrs.items():
+            if isinstance(val, ast.Call) and norm(val.func).split(".")[-1] in fac:
+                out.add(nme)
+    return out
+
+
+_CONVERT_CALLS = ("convert_energy_2_current_u", "convert_2_current_u")
+
+
+_getters_cache = {}
+
+
+def converting_getters(prog):
+    key = id(prog)
+    if key not in _getters_cache:
+        _getters_cache[key] = (prog, _converting_getters(prog))
+    return _getters_cache[key][1]
+
+
+def _converting_getters(prog):
+    """Method names every definition of which in the package returns an energy converted to the units
+    current for the caller (directly, or by returning what another such getter returns)."""
+    defs = {}
+    for c in prog.all_classes():
+        for nme, fn in c.methods.items():
+            if nme.startswith("__") or nme in _CONVERT_CALLS:
+                continue
+            defs.setdefault(nme, []).append(fn)
+    conv = set()
+
+    managed_of = {}
+
+    def returns_converted(fn):
+        """the returned value is computed from a converted number: a convert call, a units-managed
+        property of self, another converting getter, or a local that holds one of these"""
+        if fn.cls not in managed_of:
+            managed_of[fn.cls] = converted_attributes(prog, fn.cls) if fn.cls is not None else set()
+        managed = managed_of[fn.cls]
+        pm = parents_map(fn.node)
+        tainted = set()
+
+        def shape_only(n):
+            p = pm.get(n)
+            return isinstance(p, ast.Attribute) and p.attr in ("shape", "dtype", "ndim", "size")
+
+        def dirty(e):
+            for x in ast.walk(e):
+                if isinstance(x, ast.Call) and _is_conv_call(x):
+                    return True
+                if isinstance(x, ast.Attribute) and isinstance(x.ctx, ast.Load) and isinstance(x.value, ast.Name) \
+                        and x.value.id == "self" and x.attr in managed and not shape_only(x):
+                    return True
+                if isinstance(x, ast.Name) and isinstance(x.ctx, ast.Load) and x.id in tainted and not shape_only(x):
+                    return True
+            return False
+
+        changed = True
+        while changed:
+            changed = False
+            for n in walk_no_nested(fn.node):
+                if isinstance(n, (ast.Assign, ast.AugAssign)) and dirty(n.value):
+                    for t_ in (n.targets if isinstance(n, ast.Assign) else [n.target]):
+                        while isinstance(t_, ast.Subscript):
+                            t_ = t_.value
+                        if isinstance(t_, ast.Name) and t_.id not in tainted:
+                            tainted.add(t_.id)
+                            changed = True
+        return any(isinstance(n, ast.Return) and n.value is not None and dirty(n.value)
+                   for n in walk_no_nested(fn.node))
+
+    assume = set()
+
+    def _is_conv_call(call):
+        nm = call_name(call)
+        return nm in _CONVERT_CALLS or (isinstance(call.func, ast.Attribute) and (nm in conv or nm in assume))
+
+    changed = True
+    while changed:
+        changed = False
+        for nme, fns in defs.items():
+            if nme in conv:
+                continue
+            # a definition may hand on what the getter of the same name of another object returns
+            assume.clear()
+            direct = [f for f in fns if returns_converted(f)]
+            if not direct:
+                continue
+            assume.add(nme)
+            ok = all(returns_converted(f) for f in fns)
+            assume.clear()
+            if ok:
+                conv.add(nme)
+                changed = True
+    return conv
+
+
+def hamiltonian_fields(prog, cls):
+    """(parameter names, field names) through which the class receives and keeps its Hamiltonian: the
+    constructor parameter that is tested with isinstance(p, Hamiltonian) or is called ham/Ham by the
+    package-wide convention, and the attributes of self it is stored in."""
+    params, fields = set(), set()
+    for b in prog.mro(cls):
+        if b is None or "__init__" not in b.methods:
+            continue
+        init = b.methods["__init__"].node
+        names = {a.arg for a in init.args.args + init.args.kwonlyargs}
+        for n in ast.walk(init):
+            if isinstance(n, ast.Call) and call_name(n) == "isinstance" and len(n.args) == 2 \
+                    and isinstance(n.args[0], ast.Name) and norm(n.args[1]).split(".")[-1] == "Hamiltonian":
+                params.add(n.args[0].id)
+        params |= names & {"ham", "Ham", "hamiltonian", "Hamiltonian"}
+        for n in ast.walk(init):
+            if isinstance(n, ast.Assign) and isinstance(n.value, ast.Name) and n.value.id in params:
+                for t_ in n.targets:
+                    if isinstance(t_, ast.Attribute) and isinstance(t_.value, ast.Name) and t_.value.id == "self":
+                        fields.add(t_.attr)
+    return params, fields
+
+
+# methods that hand out a function of frequency (its axis is units managed, so evaluating it at a point
+# interprets the point in the units current for the caller)
+FREQUENCY_DOMAIN_PRODUCERS = ("get_Fourier_transform", "get_FTCorrelationFunction", "get_EvenFTCorrelationFunction",
+                              "get_OddFTCorrelationFunction", "get_SpectralDensity")
+
+_all_hfields_cache = {}
+
+
+def all_hamiltonian_fields(prog):
+    key = id(prog)
+    if key not in _all_hfields_cache:
+        out = set()
+        for c in prog.all_classes():
+            out |= hamiltonian_fields(prog, c)[1]
+        _all_hfields_cache[key] = (prog, out)
+    return _all_hfields_cache[key][1]
+
+
+class CalculatorReads:
+    """Converting reads of a calculator class and how each is protected."""
+
+    def __init__(self, prog, cls, extra_hamiltonian_exprs=()):
+        self.prog, self.cls = prog, cls
+        ham = None
+        for m_ in prog.modules.values():
+            if m_.name == "quantarhei.qm.hilbertspace.hamiltonian" and "Hamiltonian" in m_.classes:
+                ham = m_.classes["Hamiltonian"]
+        if ham is None:
+            ham = prog.cls("quantarhei.qm.hilbertspace.hamiltonian.Hamiltonian")
+        self.hattrs = converted_attributes(prog, ham)
+        self.getters = converting_getters(prog)
+        self.hparams, self.hfields = hamiltonian_fields(prog, cls)
+        self.extra = set(extra_hamiltonian_exprs)
+        self.all_hfields = all_hamiltonian_fields(prog)
+        self.methods = {}
+        for b in reversed([x for x in prog.mro(cls) if x is not None]):
+            if b.module.name.startswith("quantarhei"):
+                for nme, fn in b.methods.items():
+                    self.methods[nme] = fn
+        self._callers = None
+        self.sites = []           # (FuncInfo, node, description, protection or None)
+        self._scan()
+
+    # -- which expressions denote the Hamiltonian inside a method
+    def _typed_names(self, fn):
+        names = set()
+        args = {a.arg for a in fn.node.args.args + fn.node.args.kwonlyargs}
+        names |= args & self.hparams
+        changed = True
+        while changed:
+            changed = False
+            for n in walk_no_nested(fn.node):
+                if isinstance(n, ast.Assign) and len(n.targets) == 1 and isinstance(n.targets[0], ast.Name) \
+                        and n.targets[0].id not in names and self._is_ham(n.value, names):
+                    names.add(n.targets[0].id)
+                    changed = True
+        # a name that is also bound to something else in the method is not trusted
+        for n in walk_no_nested(fn.node):
+            if isinstance(n, ast.Assign):
+                for t_ in n.targets:
+                    if isinstance(t_, ast.Name) and t_.id in names and not self._is_ham(n.value, names):
+                        names.discard(t_.id)
+        return names
+
+    def _is_ham(self, e, names):
+        if isinstance(e, ast.Name):
+            return e.id in names
+        if isinstance(e, ast.Call) and call_name(e) == "get_Hamiltonian" and isinstance(e.func, ast.Attribute):
+            return True
+        if isinstance(e, ast.Attribute):
+            if norm(e) in self.extra:
+                return True
+            # self.ham, and the same field of a calculator this one holds (self.hy.ham)
+            return e.attr in self.hfields or e.attr in self.all_hfields
+        return False
+
+    @staticmethod
+    def _shape_only(pm, n):
+        """X.data.shape / X.data.dtype / len(X.data): no number is read"""
+        p = pm.get(n)
+        if isinstance(p, ast.Attribute) and p.attr in ("shape", "dtype", "ndim", "size"):
+            return True
+        if isinstance(p, ast.Call) and call_name(p) == "len" and p.args and p.args[0] is n:
+            return True
+        return False
+
+    def _local_shape_only(self, fn, pm, n):
+        """`HH = X.data` where every use of HH in the method is HH.shape / len(HH)"""
+        p = pm.get(n)
+        if not (isinstance(p, ast.Assign) and p.value is n and len(p.targets) == 1 and isinstance(p.targets[0], ast.Name)):
+            return False
+        var = p.targets[0].id
+        stores = [x for x in walk_no_nested(fn.node) if isinstance(x, ast.Name) and x.id == var
+                  and isinstance(x.ctx, ast.Store)]
+        if len(stores) != 1:
+            return False
+        uses = [x for x in walk_no_nested(fn.node) if isinstance(x, ast.Name) and x.id == var
+                and isinstance(x.ctx, ast.Load)]
+        return bool(uses) and all(self._shape_only(pm, x) for x in uses)
+
+    def _scan(self):
+        for fn in self.methods.values():
+            names = self._typed_names(fn)
+            pm = parents_map(fn.node)
+            freq = {t_.id for n in walk_no_nested(fn.node) if isinstance(n, ast.Assign) and isinstance(n.value, ast.Call)
+                    and call_name(n.value) in FREQUENCY_DOMAIN_PRODUCERS for t_ in n.targets if isinstance(t_, ast.Name)}
+            for n in walk_no_nested(fn.node):
+                desc = None
+                if isinstance(n, ast.Attribute) and isinstance(n.ctx, ast.Load) and n.attr in self.hattrs \
+                        and self._is_ham(n.value, names):
+                    if self._shape_only(pm, n) or self._local_shape_only(fn, pm, n):
+                        continue
+                    desc = norm(n)
+                elif isinstance(n, ast.Call) and isinstance(n.func, ast.Attribute) and n.func.attr == "at" \
+                        and isinstance(n.func.value, ast.Name) and n.func.value.id in freq:
+                    desc = norm(n.func) + "()"
+                elif isinstance(n, ast.Call) and isinstance(n.func, ast.Attribute) and n.func.attr in self.getters \
+                        and not (isinstance(n.func.value, ast.Call) and call_name(n.func.value) == "super"):
+                    desc = norm(n.func) + "()"
+                if desc is None:
+                    continue
+                self.sites.append([fn, n, desc, in_int_context(pm, n)])
+        for s in self.sites:
+            if s[3] is True:
+                s[3] = "block"
+            else:
+                s[3] = "callers" if self._protected_by_callers(s[0], set()) else None
+
+    def callers(self):
+        if self._callers is None:
+            self._callers = {}
+            for fn in self.methods.values():
+                pm = parents_map(fn.node)
+                for c in walk_no_nested(fn.node):
+                    if isinstance(c, ast.Call) and isinstance(c.func, ast.Attribute) \
+                            and isinstance(c.func.value, ast.Name) and c.func.value.id == "self":
+                        tgt = demangle_name(fn, c.func.attr)
+                        if tgt in self.methods:
+                            self._callers.setdefault(tgt, []).append((fn, c, in_int_context(pm, c)))
+        return self._callers
+
+    def _protected_by_callers(self, fn, seen):
+        """private helper, called at least once, every call site inside a block or in a helper that is
+        itself protected by its callers"""
+        if not fn.name.startswith("_") or (fn.name.startswith("__") and fn.name.endswith("__")):
+            return False
+        if fn.name in seen:
+            return False
+        cs = self.callers().get(fn.name, [])
+        if not cs:
+            return False
+        for caller, call, inside in cs:
+            if inside:
+                continue
+            if not self._protected_by_callers(caller, seen | {fn.name}):
+                return False
+        return True
+
+
+def demangle_name(fn, attr):
+    from .loader import demangle
+    return demangle(fn, attr)
